@@ -261,7 +261,7 @@ func checkC05(ctx *Ctx) {
 		"distinct_nontrivial = distinct (A family, B family, k, B-blocked) interleaving classes executed plus distinct race-report / checker classes")
 	ctx.Assume("interleavings inside one keyspace call are not enumerated (the race detector covers those on the executions the stress produces)",
 		"'B is blocked' is an observation used to choose when to release A, never a verdict; every watchdog firing is inconclusive")
-	if ctx.Fork(8, "", 20*time.Minute) {
+	if ctx.Fork(8, "", ctx.Watchdog()) {
 		c05Stress(ctx)
 		return
 	}
